@@ -108,6 +108,16 @@ func observeScan(base string, depth int, targets []string) ([]Obs, error) {
 // local endpoint calls it) to create one link per target in a directory depth
 // levels below a fresh root and reports the results and what is on disk.
 func observeTransition(base string, depth int, targets []string) ([]Obs, error) {
+	return observeTransitionFrom(base, depth, targets, "")
+}
+
+// retargetOld is the (portable at any depth) target of the links that the
+// "retarget" mode asks core.Transition to point elsewhere.
+const retargetOld = "previous-target"
+
+// observeTransitionFrom is observeTransition; with a non-empty old target the
+// links already exist with that target and the transition retargets them.
+func observeTransitionFrom(base string, depth int, targets []string, old string) ([]Obs, error) {
 	root, linkDir, prefix, err := layout(base, depth)
 	if err != nil {
 		return nil, err
@@ -117,6 +127,13 @@ func observeTransition(base string, depth int, targets []string) ([]Obs, error) 
 		transitions[i] = &core.Change{
 			Path: prefix + linkName(i),
 			New:  &core.Entry{Kind: core.EntryKind_SymbolicLink, Target: target},
+		}
+		if old != "" {
+			os.Remove(filepath.Join(linkDir, linkName(i)))
+			if err := os.Symlink(old, filepath.Join(linkDir, linkName(i))); err != nil {
+				return nil, err
+			}
+			transitions[i].Old = &core.Entry{Kind: core.EntryKind_SymbolicLink, Target: old}
 		}
 	}
 	results, problems, _ := core.Transition(
@@ -143,6 +160,8 @@ func observeTransition(base string, depth int, targets []string) ([]Obs, error) 
 		switch {
 		case r == nil:
 			o.Kind = "not created"
+		case old != "" && old != target && r.Kind == core.EntryKind_SymbolicLink && r.Target == old:
+			o.Kind = "not retargeted"
 		case r.Kind == core.EntryKind_SymbolicLink && r.Target == target:
 			o.Kind = "created"
 			o.Accepted = true
@@ -151,8 +170,11 @@ func observeTransition(base string, depth int, targets []string) ([]Obs, error) 
 			o.Accepted = true
 		}
 		if back, err := os.Readlink(filepath.Join(linkDir, linkName(i))); err == nil {
-			o.OnDisk = true
-			o.Reported = back
+			// A link that still has the old target is not the requested link.
+			if old == "" || old == target || back != old {
+				o.OnDisk = true
+				o.Reported = back
+			}
 		} else if _, lerr := os.Lstat(filepath.Join(linkDir, linkName(i))); lerr == nil {
 			o.OnDisk = true
 			o.Reported = "<not a link>"
@@ -185,6 +207,9 @@ func kindName(k core.EntryKind) string {
 func observe(base, mode string, depth int, targets []string) ([]Obs, error) {
 	if mode == "scan" {
 		return observeScan(base, depth, targets)
+	}
+	if mode == "retarget" {
+		return observeTransitionFrom(base, depth, targets, retargetOld)
 	}
 	return observeTransition(base, depth, targets)
 }
@@ -297,14 +322,14 @@ func TestExhaustiveTokens(t *testing.T) {
 	maxDepth := ev.Pick(3, 4)
 	rec := ev.New(t, prop, "exhaustive-token-targets",
 		"every target of 1.."+fmt.Sprint(maxTokens)+" tokens from {n, ., .., empty} joined by '/', at link depths 0.."+fmt.Sprint(maxDepth)+
-			", once as a link on disk seen by core.Scan and once as a link core.Transition is asked to create (portable mode, real temp directory); "+rule)
-	rec.SetExhaustive(fmt.Sprintf("tokens {n,.,..,empty}, 1..%d tokens, depths 0..%d, modes scan+transition", maxTokens, maxDepth))
+			", once as a link on disk seen by core.Scan once as a link core.Transition is asked to create and once as the new target of an existing link core.Transition is asked to retarget (portable mode, real temp directory); "+rule)
+	rec.SetExhaustive(fmt.Sprintf("tokens {n,.,..,empty}, 1..%d tokens, depths 0..%d, modes scan+transition+retarget", maxTokens, maxDepth))
 	_, known := reportKnownIfListed(t, rec)
 	all := tokenTargets(maxTokens)
 	rec.Note("targets_per_depth_and_mode", len(all))
 	idx := 0
 	for depth := 0; depth <= maxDepth; depth++ {
-		for _, mode := range []string{"scan", "transition"} {
+		for _, mode := range []string{"scan", "transition", "retarget"} {
 			idx++
 			if (idx-1)%ev.Shards() != ev.Shard() {
 				continue
@@ -424,17 +449,17 @@ func TestRandomTargets(t *testing.T) {
 		t.Skip("replaying")
 	}
 	rec := ev.New(t, prop, "random-targets",
-		"rapid: targets of 1..9 components drawn from names, '.', '..', empty, colon-, backslash- and multi-byte-containing names, optional leading '/', plus targets padded to 240..256 bytes; link depth 0..3; mode scan or transition on a real temp directory; "+rule)
+		"rapid: targets of 1..9 components drawn from names, '.', '..', empty, colon-, backslash- and multi-byte-containing names, optional leading '/', plus targets padded to 240..256 bytes; link depth 0..3; mode scan, transition (creation) or retarget (existing link pointed elsewhere) on a real temp directory; "+rule)
 	_, known := reportKnownIfListed(t, rec)
 	bases := map[string]string{}
-	for _, m := range []string{"scan", "transition"} {
+	for _, m := range []string{"scan", "transition", "retarget"} {
 		for d := 0; d <= 3; d++ {
 			bases[fmt.Sprint(m, d)] = t.TempDir()
 		}
 	}
 	ev.Check(t, rec, 5000, 30000, func(rt *rapid.T) {
 		c := &Case{
-			Mode:   rapid.SampledFrom([]string{"scan", "transition"}).Draw(rt, "mode"),
+			Mode:   rapid.SampledFrom([]string{"scan", "transition", "retarget"}).Draw(rt, "mode"),
 			Depth:  rapid.IntRange(0, 3).Draw(rt, "depth"),
 			Target: randomTarget(rt),
 		}
